@@ -10,7 +10,7 @@
    fields of [f] / [b] and universally quantified. *)
 From Coq Require Import List NArith Bool.
 From Herc Require Import TreeDiff.Model TreeDiff.ChangesProofs TreeDiff.FilterProofs TreeDiff.CacheProofs
-  TreeDiff.ReplayProofs TreeDiff.FixedFilter.
+  TreeDiff.ReplayProofs TreeDiff.FixedFilter TreeDiff.StrictProofs.
 Import ListNotations.
 Open Scope N_scope.
 
@@ -145,6 +145,22 @@ Theorem C20_cache_no_refusal : forall b s cs, b_fail_missing b = false ->
   integral b cs -> well_shaped cs -> exists r, bc_consume b s cs = Ok r.
 Proof. exact cache_no_refusal. Qed.
 Print Assumptions C20_cache_no_refusal.
+
+(* ... and in EITHER submodule mode, for every state of the rotating cache: a change list is never refused when every
+   blob it references is available in the environment of the commit being consumed - the object is in the store, or the
+   entry is a submodule entry and (FailOnMissingSubmodules is off or the path is a submodule name of THIS commit's parsed
+   .gitmodules); the old side of a deletion only needs a readable .gitmodules.  [integral_b] (extracted) is the domain on
+   which the check reports an error or a panic of the implementation's BlobCache.Consume as a violation. *)
+Theorem C20_cache_no_refusal_strict : forall b s cs, integral_b b cs = true ->
+  exists r, bc_consume b s cs = Ok r.
+Proof. exact cache_no_refusal_strict. Qed.
+Print Assumptions C20_cache_no_refusal_strict.
+
+Example C20_example_strict_domain :
+  let b := mkB (fun h => if h =? 1 then Some [65] else None) true (Some [[108; 105; 98]]) in
+  integral_b b [mkC None (Some (mkE [108; 105; 98] 9 mode_submodule)); mkC (Some (mkE [97] 1 33188)) None] = true /\
+  integral_b b [mkC None (Some (mkE [46; 99; 105] 9 mode_submodule))] = false.
+Proof. exact integral_b_strict_example. Qed.
 
 (* ---- forked branches are private (isolation holds by construction in the model; that the Go
         clones share nothing mutable is carried by the correspondence check, which compares every
